@@ -54,11 +54,18 @@ fn gen(rng: &mut Rng, tier: Tier) -> Vec<Case> {
     for i in 0..nb {
         let n = if i % 25 == 0 { 0 } else { rng.range(1, 7) as usize };
         let h = gen_hist(rng, n, 20, true, true, 0);
-        // merge on zero-length intervals is outside the property (C18 needs start < stop); keep
-        // zero-length intervals only in histories without a merge
-        let h = if h.ops.contains(&Op::Merge) && h.all_intervals().iter().any(|x| x.0 == x.1) {
-            Hist { init: h.init, ops: h.ops.into_iter().filter(|o| *o != Op::Merge).collect() }
-        } else { h };
+        // zero-length intervals and merges together are within the property (start <= stop, any history):
+        // every third case with a merge gets a zero-length insert at an existing endpoint after it
+        let mut h = h;
+        if i % 3 == 0 && h.ops.contains(&Op::Merge) {
+            let e = h.endpoints();
+            if !e.is_empty() {
+                let p = *rng.pick(&e);
+                let at = h.ops.iter().rposition(|o| *o == Op::Merge).unwrap() + 1;
+                h.ops.insert(at, Op::Insert(p, p, 77));
+                if rng.chance(1, 3) { h.ops.insert(at, Op::Insert(p, p, 78)); }
+            }
+        }
         let a = around(&h.endpoints());
         let mut qs = vec![];
         for &s in &a { for &e in &a { if s < e { qs.push((s, e)); } } }
@@ -68,16 +75,15 @@ fn gen(rng: &mut Rng, tier: Tier) -> Vec<Case> {
         out.push(Case::new("boundary", enc(&C { h, qs })));
     }
     if tier == Tier::Thorough {
-        // exhaustive small scope: all sequences of <= 3 intervals over 0..=3 (zero-length included, no merge),
-        // and of <= 3 non-empty intervals with merges, every query over 0..=5
-        for h in exhaustive_hists(3, 3, true, false) { out.push(Case::new("exhaustive", enc(&C { h, qs: all_queries(3) }))); }
-        for h in exhaustive_hists(3, 3, false, true) { out.push(Case::new("exhaustive", enc(&C { h, qs: all_queries(3) }))); }
+        // exhaustive small scope: all sequences of <= 3 intervals over 0..=3 (zero-length included) in bulk / insert-only / mixed / merged / merged-then-insert histories, every query over 0..=5
+        for h in exhaustive_hists(3, 3, true, true) { out.push(Case::new("exhaustive", enc(&C { h, qs: all_queries(3) }))); }
     }
     for _ in 0..nr {
         let n = rng.range(2, 150) as usize;
         let base = match rng.below(4) { 0 => u64::MAX - 100_000, 1 => rng.below(1 << 45), _ => 0 };
         let zl = rng.chance(1, 2);
-        let h = gen_hist(rng, n, 5000, zl, !zl, base);
+        let mut h = gen_hist(rng, n, 5000, zl, true, base);
+        if base == 0 && rng.chance(1, 4) { h.lift_to_top(rng.below(3)); }
         let a = around(&h.endpoints());
         let mut qs = vec![];
         for _ in 0..40 {
@@ -94,7 +100,7 @@ fn gen(rng: &mut Rng, tier: Tier) -> Vec<Case> {
 pub fn prop() -> PropDef {
     PropDef {
         id: "C16",
-        rule: "corpus, then boundary-directed histories (0-7 intervals incl. zero-length, coordinates 0..25; new(prefix) + inserts in ascending/descending/random order interleaved with merge_overlaps/set_cov; every query with endpoints in {e-1,e,e+1} ∪ {0}, up to 80 per case), then random histories (2-150 intervals, offsets up to u64::MAX-1e5). Non-trivial: >= 2 stored intervals and a query endpoint coincides with an interval endpoint. Thorough adds the exhaustive small scope: every sequence of <= 3 intervals over 0..=3 in bulk / insert-only / mixed / merged histories with every query over 0..=5. Distinct = distinct input token sequence.",
+        rule: "corpus, then boundary-directed histories (0-7 intervals incl. zero-length, coordinates 0..25; new(prefix) + inserts in ascending/descending/random order interleaved with merge_overlaps/set_cov; every query with endpoints in {e-1,e,e+1} ∪ {0}, up to 80 per case), then random histories (2-150 intervals, zero-length and merges together, offsets up to u64::MAX-1e5, one in four of the rest lifted so that the greatest stop is u64::MAX-1-{0,1,2}); one in three boundary histories with a merge gets a zero-length insert at an existing endpoint after the last merge. Non-trivial: >= 2 stored intervals and a query endpoint coincides with an interval endpoint. Thorough adds the exhaustive small scope: every sequence of <= 3 intervals over 0..=3 in bulk / insert-only / mixed / merged / merged-then-insert histories with every query over 0..=5. Distinct = distinct input token sequence.",
         observable: "Lapper::count and Lapper::find().count() per query",
         gen, exec, shrink, child: None,
     }
